@@ -180,8 +180,19 @@ fn serial(ctx: &Ctx) -> R {
     ctx.shape("serial", h.len() as u64, t.rows.len() as u64);
     set_component("parquet.arrow_writer");
     let mut buf = Vec::new();
+    let spill = ctx.chance(1, 4, "c05.spill");
+    if spill {
+        ctx.probe("page_store_spill");
+    }
     let res = (|| -> Result<(), parquet::errors::ParquetError> {
-        let mut w = ArrowWriter::try_new(&mut buf, t.schema.clone(), Some(cfg.props_for(&t.schema)))?;
+        // sometimes completed pages go through a spill store that hands out opaque, non-dense keys
+        let mut opts = parquet::arrow::arrow_writer::ArrowWriterOptions::new().with_properties(cfg.props_for(&t.schema));
+        if spill {
+            let sh = std::sync::Arc::new(checks::spill::Shared::default());
+            sh.fail_at.store(usize::MAX, std::sync::atomic::Ordering::SeqCst);
+            opts = opts.with_page_store_factory(std::sync::Arc::new(checks::spill::Factory(sh)));
+        }
+        let mut w = ArrowWriter::try_new_with_options(&mut buf, t.schema.clone(), opts)?;
         for (at, len, flush) in &h {
             w.write(&t.batch.slice(*at, *len))?;
             ctx.step();
